@@ -375,6 +375,9 @@ class TestCase(unittest.TestCase):
         self.__exception_handlers.append(handler)
 
     def _add_reason(self, reason):
+        if not isinstance(reason, str):
+            # Documented: the reason only has to support being cast to text.
+            reason = str(reason)
         self.addDetail("reason", content.text_content(reason))
 
     def assertEqual(self, expected, observed, message=""):
